@@ -24,6 +24,34 @@ from pyvc import contract as C  # noqa: E402
 _spec_ns = None
 
 
+import ast
+
+
+class _Lazy(ast.NodeTransformer):
+    """implies(a, b) / iff(a, b) are connectives, not calls: evaluate them lazily like the SMT translation does"""
+
+    def visit_Call(self, node):
+        self.generic_visit(node)
+        if isinstance(node.func, ast.Name) and node.func.id == "implies" and len(node.args) == 2:
+            return ast.BoolOp(op=ast.Or(), values=[ast.UnaryOp(op=ast.Not(), operand=node.args[0]), node.args[1]])
+        return node
+
+
+def compile_spec(text, mode="eval", filename="<contract>"):
+    tree = ast.parse(text.strip() if mode == "eval" else text, mode=mode)
+    tree = ast.fix_missing_locations(_Lazy().visit(tree))
+    return compile(tree, filename, mode)
+
+
+_compiled = {}
+
+
+def spec_eval(text, env):
+    if text not in _compiled:
+        _compiled[text] = compile_spec(text)
+    return eval(_compiled[text], env)
+
+
 def spec_namespace():
     global _spec_ns
     if _spec_ns is None:
@@ -32,11 +60,7 @@ def spec_namespace():
         for path in sorted(glob.glob(os.path.join(VERIF, "spec", "*.py"))):
             if path.endswith("__init__.py"):
                 continue
-            name = "spec." + os.path.basename(path)[:-3]
-            mod = importlib.import_module(name)
-            for k, v in vars(mod).items():
-                if not k.startswith("__"):
-                    ns[k] = v
+            exec(compile_spec(open(path).read(), "exec", path), ns)
         _spec_ns = ns
     return _spec_ns
 
@@ -67,14 +91,17 @@ def evaluate(ct, kwargs, adapter=None):
     """call the real function with kwargs; returns dict(outcome, result/exception, violated:[labels])"""
     ns = dict(spec_namespace())
     fn = real_function(ct)
-    args = copy.deepcopy(kwargs)
-    old = copy.deepcopy(kwargs)
+    if ct.bounded and ct.bounded.get("share"):
+        args = old = kwargs              # pure function whose contract speaks about object identity
+    else:
+        args = copy.deepcopy(kwargs)
+        old = copy.deepcopy(kwargs)
     out = {"violated": [], "outcome": "return"}
     try:
         for r in ct.requires:
             env = dict(ns)
             env.update(args)
-            if not eval(r, env):
+            if not spec_eval(r, env):
                 out["outcome"] = "precondition-false"
                 return out
     except Exception as e:  # a requires clause that cannot be evaluated concretely is not a failure of the code
@@ -101,7 +128,7 @@ def evaluate(ct, kwargs, adapter=None):
                 env.update(old)
                 env["old"] = lambda x: x
                 try:
-                    if not eval(text, env):
+                    if not spec_eval(text, env):
                         out["violated"].append(f"raises:{allowed[0]} only-if")
                 except Exception as e2:
                     out["violated"].append(f"raises:{allowed[0]} only-if (not evaluable: {e2})")
@@ -114,20 +141,20 @@ def evaluate(ct, kwargs, adapter=None):
     for exc, cond in ct.raises.items():
         if isinstance(cond, str) and cond != "True" and not cond.startswith("maybe"):
             try:
-                if eval(cond, dict(env)):
+                if spec_eval(cond, dict(env)):
                     out["violated"].append(f"raises:{exc} must-raise")
             except Exception:
                 pass
     for lbl, e in ct.lets.items():
         try:
-            env[lbl] = eval(e, dict(env))
+            env[lbl] = spec_eval(e, dict(env))
         except Exception as ex:
             out["violated"].append(f"let {lbl} not evaluable: {type(ex).__name__}: {ex}")
     for lbl, e in ct.ensures.items():
         if lbl.startswith("exc:"):
             continue
         try:
-            ok = eval(e, dict(env))
+            ok = spec_eval(e, dict(env))
         except Exception as ex:
             out["violated"].append(f"ensures:{lbl} (not evaluable: {type(ex).__name__}: {ex})")
             continue
@@ -174,6 +201,8 @@ def bounded_search(ct, tier="quick", limit=None, stop_at=5):
     cases_fn = None
     names = []
     for k, v in gens.items():
+        if k == "share":
+            continue
         if k == "adapter":
             adapter = resolve(v)
         elif k == "cases":
